@@ -112,6 +112,27 @@ int main(int argc, char **argv) {
             char ex[32]; snprintf(ex, sizeof ex, "T=%d", T);
             compare("LagrangeHalfCPolynomialAddMul/SubMul", icls, lgB, tcls, r->coefsT, acc, tolP * T, ex);
             snprintf(cell, sizeof cell, "product:%s:lgB=%d:%s", icls_name[icls], lgB, tcls_name[tcls]); out.cell(cell);
+            // the result / accumulator object is also one of the factors (element-wise operations: every back-end of the unchanged
+            // library accepts this, so interchangeable back-ends must all keep accepting it)
+            {
+                fill_int(a->coefs, icls, B); fill_torus(b->coefsT, tcls);
+                ref_negacyclic(exact, a->coefs, b->coefsT, N);
+                VH_OP("fftprod:%s:LagrangeHalfCPolynomialMul(result is a factor):%s:lgB=%d:%s", tags.c_str(), icls_name[icls], lgB, tcls_name[tcls]);
+                IntPolynomial_ifft(la, a); TorusPolynomial_ifft(lb, b); LagrangeHalfCPolynomialMul(lb, la, lb); TorusPolynomial_fft(r, lb);
+                compare("LagrangeHalfCPolynomialMul(result==second factor)", icls, lgB, tcls, r->coefsT, exact, tolP);
+                IntPolynomial_ifft(la, a); TorusPolynomial_ifft(lb, b); LagrangeHalfCPolynomialMul(la, la, lb); TorusPolynomial_fft(r, la);
+                compare("LagrangeHalfCPolynomialMul(result==first factor)", icls, lgB, tcls, r->coefsT, exact, tolP);
+                for (int i = 0; i < N; i++) want[i] = (U) b->coefsT[i] + exact[i];
+                IntPolynomial_ifft(la, a); TorusPolynomial_ifft(lb, b); LagrangeHalfCPolynomialAddMul(lb, la, lb); TorusPolynomial_fft(r, lb);
+                compare("LagrangeHalfCPolynomialAddMul(accumulator==second factor)", icls, lgB, tcls, r->coefsT, want, tolP + 1);
+                for (int i = 0; i < N; i++) want[i] = (U) b->coefsT[i] - exact[i];
+                IntPolynomial_ifft(la, a); TorusPolynomial_ifft(lb, b); LagrangeHalfCPolynomialSubMul(lb, la, lb); TorusPolynomial_fft(r, lb);
+                compare("LagrangeHalfCPolynomialSubMul(accumulator==second factor)", icls, lgB, tcls, r->coefsT, want, tolP + 1);
+                TorusPolynomial_ifft(la, b); TorusPolynomial_ifft(lb, b); LagrangeHalfCPolynomialAddTo(lb, lb); TorusPolynomial_fft(r, lb);
+                for (int i = 0; i < N; i++) want[i] = 2 * (U) b->coefsT[i];
+                compare("LagrangeHalfCPolynomialAddTo(accumulator==operand)", -1, 0, tcls, r->coefsT, want, 2);
+                snprintf(cell, sizeof cell, "product-in-place:%s:lgB=%d:%s", icls_name[icls], lgB, tcls_name[tcls]); out.cell(cell);
+            }
         }
         // the operands of the transforms and of the Lagrange-domain operations are inputs: reading a Lagrange polynomial out
         // twice gives the same polynomial, and a polynomial that was multiplied or added stays what it was
